@@ -144,6 +144,9 @@ func (r *Run) Finish() int {
 			}
 			if o.Verdict == "violated" || o.Verdict == "undecided" {
 				fmt.Printf("MUTANT-FIRES\t%s\t%s\t%s\n", o.Rule, o.Construct, o.Pos)
+				if os.Getenv("JKL_DEBUG") != "" {
+					fmt.Printf("    detail: %s\n", o.Detail)
+				}
 			}
 		}
 		return 0
